@@ -155,6 +155,8 @@ class Gen(object):
             if j < 0.93 and in_loop:
                 return [ind + r.choice(['break', 'continue'])]
             if j < 0.96 and self.wide:
+                if r.random() < 0.3:
+                    return [ind + '%s: int = %s' % (self.name(), self.expr(D))]
                 return [ind + 'del %s' % self.target(D - 1)]
             return [ind + 'pass']
         if k < 0.76:
@@ -267,15 +269,24 @@ class Mirror(object):
             return False, h or self.named(n, 'body', n.body)
         kids = self.children(n)
         if isinstance(n, ast.Dict):
-            kids = [('keys', k, False) for k in n.keys] + [('values', v, False) for v in n.values]
+            kids = [('keys', k, False) for k in n.keys] + [('values', v, k is None) for k, v in zip(n.keys, n.values)]
         infos = []
+        star_after = False
         for f, c, star in kids:
             q, h = self.expr(c)
-            infos.append((q and not star, h, self.named(n, f, c)))
+            nm = self.named(n, f, c)
+            infos.append((q, h, nm))
+            if star_after and (not q or h or nm):
+                self.reasons.add('anf-starred-unpack-order')
+            if star:
+                # the unpacking itself happens in place, right after the operand is evaluated
+                infos.append((False, False, False))
+                star_after = True
         generic_only = isinstance(n, (ast.NamedExpr, ast.Slice, ast.Starred)) or \
             (isinstance(n, (ast.Tuple, ast.List)) and not isinstance(n.ctx, ast.Load))
         if generic_only:
             infos = [(q, h, False) for q, h, _ in infos]
+        infos0 = [i for i in infos]
         if isinstance(n, ast.Dict):
             nk = len(n.keys)
             if nk > 1:
